@@ -3,7 +3,7 @@ import CffiVerif.Proofs.Ieee
 
 /-! Helper lemmas about `Model/FloatStore.lean` (used by `Props/C05.lean`). -/
 namespace CffiVerif.FloatStore
-open CffiVerif.Ieee
+open CffiVerif.Ieee CffiVerif.Generated
 
 theorem toLE_length (n x : Nat) : (toLE n x).length = n := by
   induction n generalizing x with
@@ -88,6 +88,109 @@ theorem widen_toNat (b : UInt32) : (widen b).toNat = widenNat b.toNat := by
   rw [UInt64.toNat_ofNat']
   unfold widenNat
   omega
+
+/-! ## meaning of the generated dispatch (`Generated/FloatExprs.lean`)
+
+What `translate/c05_exprs.py` extracts from the C source must amount to this for
+the theorems of `Props/C05.lean` to hold. -/
+
+/-- `write_raw_float_data`: size 4 stores `(float)source`, size 8 the double
+itself, anything else is the fatal error. -/
+theorem writeRawFloat_eq (source : UInt64) (size : Nat) :
+    writeRawFloat source size =
+      if size = 4 then .ok (toLE 4 (narrow source).toNat)
+      else if size = 8 then .ok (toLE 8 source.toNat)
+      else .error .fatalBadSize := by
+  simp only [writeRawFloat, FloatExprs.writeFloatCases, FloatExprs.writeFloatSourceType, writeCases,
+    FloatExprs.writeMacroTest, FloatExprs.writeMacroCopyLen, FloatExprs.CFloatType.sizeof,
+    FloatExprs.sizeofFloat, FloatExprs.sizeofDouble, cconv, UInt64.ofNat_toNat, beq_iff_eq]
+
+/-- `read_raw_float_data`: a 4-byte object is widened, an 8-byte object is the
+double itself. -/
+theorem readRawFloat_eq (target : Bytes) (size : Nat) :
+    readRawFloat target size =
+      if size = 4 ∧ target.length = 4 then .ok (widen (UInt32.ofNat (ofLE target)))
+      else if size = 8 ∧ target.length = 8 then .ok (UInt64.ofNat (ofLE target))
+      else .error .fatalBadSize := by
+  simp only [readRawFloat, FloatExprs.readFloatCases, FloatExprs.readFloatReturnType, readCases,
+    FloatExprs.readMacroTest, FloatExprs.readMacroCopyLen, FloatExprs.CFloatType.sizeof,
+    FloatExprs.sizeofFloat, FloatExprs.sizeofDouble, cconv, beq_iff_eq]
+  split
+  · simp [Except.map, UInt64.ofNat_toNat]
+  · split <;> simp [Except.map]
+
+theorem readRawFloat_toLE4 (X : Nat) :
+    readRawFloat (toLE 4 X) (8 / 2) = .ok (widen (UInt32.ofNat (ofLE (toLE 4 X)))) := by
+  rw [readRawFloat_eq, toLE_length]; rfl
+
+theorem readRawFloat_toLE8 (X : Nat) :
+    readRawFloat (toLE 8 X) (16 / 2) = .ok (UInt64.ofNat (ofLE (toLE 8 X))) := by
+  rw [readRawFloat_eq, toLE_length]; rfl
+
+theorem ldSize_eq : ldSize = 16 := rfl
+theorem ldWriteSize_eq : FloatExprs.ldWriteSize = 16 := rfl
+
+/-- `write_raw_complex_data`, `float _Complex`: `(float)real` at `target`,
+`(float)imag` at `target + 4`. -/
+theorem writeRawComplex_eq8 (buf : Bytes) (off : Nat) (re im : UInt64) :
+    writeRawComplex buf off re im 8 =
+      .ok ((blit buf off (toLE 4 (narrow re).toNat)).bind fun b => blit b (off + 4) (toLE 4 (narrow im).toNat)) := by
+  simp only [writeRawComplex, FloatExprs.cplxWriteCases, writeComplexCases, FloatExprs.cplxWriteTest,
+    FloatExprs.CFloatType.sizeof, FloatExprs.sizeofFloat, FloatExprs.cplxWriteHalves, writeHalves, cconv, pickPart,
+    UInt64.ofNat_toNat, Nat.add_zero, Nat.zero_add]
+  cases h1 : blit buf off (toLE 4 (narrow re).toNat) with
+  | none => simp
+  | some b =>
+    cases h2 : blit b (off + 4) (toLE 4 (narrow im).toNat) <;> simp [h2]
+
+/-- `double _Complex`: the two doubles at `target` and `target + 8`. -/
+theorem writeRawComplex_eq16 (buf : Bytes) (off : Nat) (re im : UInt64) :
+    writeRawComplex buf off re im 16 =
+      .ok ((blit buf off (toLE 8 re.toNat)).bind fun b => blit b (off + 8) (toLE 8 im.toNat)) := by
+  simp only [writeRawComplex, FloatExprs.cplxWriteCases, writeComplexCases, FloatExprs.cplxWriteTest,
+    FloatExprs.CFloatType.sizeof, FloatExprs.sizeofFloat, FloatExprs.sizeofDouble, FloatExprs.cplxWriteHalves,
+    writeHalves, cconv, pickPart, Nat.add_zero, Nat.zero_add]
+  cases h1 : blit buf off (toLE 8 re.toNat) with
+  | none => simp
+  | some b =>
+    cases h2 : blit b (off + 8) (toLE 8 im.toNat) <;> simp [h2]
+
+theorem writeRawComplex_bad (buf : Bytes) (off : Nat) (re im : UInt64) (size : Nat) (h8 : size ≠ 8) (h16 : size ≠ 16) :
+    writeRawComplex buf off re im size = .error .fatalBadSize := by
+  simp [writeRawComplex, FloatExprs.cplxWriteCases, writeComplexCases, FloatExprs.cplxWriteTest,
+    FloatExprs.CFloatType.sizeof, FloatExprs.sizeofFloat, FloatExprs.sizeofDouble, h8, h16]
+
+/-- `read_raw_complex_data`, `float _Complex`: the floats at `target`, `target + 4`, each widened. -/
+theorem readRawComplex_eq8 (buf : Bytes) (off : Nat) (r i : Bytes)
+    (hr : slice buf off 4 = some r) (hi : slice buf (off + 4) 4 = some i) :
+    readRawComplex buf off 8 = .ok (some (widen (UInt32.ofNat (ofLE r)), widen (UInt32.ofNat (ofLE i)))) := by
+  simp [readRawComplex, FloatExprs.cplxReadFloatTest, FloatExprs.sizeofFloat, FloatExprs.cplxReadFloatHalves,
+    readFloatHalves, hr, hi, cconv, setPart, UInt64.ofNat_toNat]
+
+/-- `double _Complex`: one copy of 16 bytes, real part first. -/
+theorem readRawComplex_eq16 (buf : Bytes) (off : Nat) (bs : Bytes) (hs : slice buf off 16 = some bs) :
+    readRawComplex buf off 16 =
+      .ok (some (UInt64.ofNat (ofLE (bs.take 8)), UInt64.ofNat (ofLE (bs.drop 8)))) := by
+  simp [readRawComplex, FloatExprs.cplxReadFloatTest, FloatExprs.cplxReadDoubleTest, FloatExprs.sizeofFloat,
+    FloatExprs.sizeofDouble, FloatExprs.cplxReadDoubleCopyLen, hs]
+
+theorem readRawComplex_bad (buf : Bytes) (off size : Nat) (h8 : size ≠ 8) (h16 : size ≠ 16) :
+    readRawComplex buf off size = .error .fatalBadSize := by
+  simp [readRawComplex, FloatExprs.cplxReadFloatTest, FloatExprs.cplxReadDoubleTest, FloatExprs.sizeofFloat,
+    FloatExprs.sizeofDouble, h8, h16]
+
+/-- The `CT_IS_LONGDOUBLE` tests: a value takes the copy path exactly when both
+the target type and the (cdata) source are `long double`; everything else of a
+non-`long double` target goes through `write_raw_float_data`. -/
+def hasLD (flags : Nat) : Bool := flags &&& FloatExprs.CT_IS_LONGDOUBLE != 0
+
+theorem ld_tests_meaning (ct : Nat) (c : Bool) (f : Nat) :
+    FloatExprs.toObjectViaDouble ct = (!hasLD ct) ∧
+    FloatExprs.fromObjectCopiesLongDouble ct c f = (hasLD ct && c && hasLD f) ∧
+    FloatExprs.fromObjectViaFloatStore ct = (!hasLD ct) ∧
+    FloatExprs.castCopiesLongDouble ct c f = (hasLD ct && c && hasLD f) ∧
+    FloatExprs.castViaFloatStore ct = (!hasLD ct) := by
+  refine ⟨rfl, rfl, rfl, rfl, rfl⟩
 
 set_option exponentiation.threshold 1100 in
 /-- The double made from a character ordinal (any integer below 2^53) is that integer. -/
